@@ -10,6 +10,7 @@ import time
 import traceback
 
 from . import common as cm
+from . import srctie
 from .common import Ctx, Infra
 
 TRUSTED_BASE = [
@@ -64,7 +65,11 @@ def main(argv):
 
     # ---- 1. build model + proofs (+ generated obligations) ------------------------------------------------------
     gen_info = None
+    src_info, src_state = None, "none"
     try:
+        if prop in srctie.SPEC:
+            # source-derived definitions: translated from the text of /repo's current working tree (DESIGN.md §9)
+            src_info = srctie.generate(prop, cm.repo_root())
         if hasattr(mod, "generate_lean"):
             # behaviour-derived constants are measured on the running implementation and written before the build
             gen_info = mod.generate_lean(ctx)
@@ -81,6 +86,33 @@ def main(argv):
         if not gen_ok:
             ctx.fail("proof", f"{prop.lower()}.generated_obligation", gen_info,
                      {"name": ",".join(gen_targets), "lake_output": gen_out[-3000:]})
+        if src_info:
+            s_ok, s_out, bt3 = cm.lean_build([src_info["lean_target"]])
+            bt += bt3
+            if src_info["unavailable"]:
+                # some listed function is outside the translatable subset (or moved): that part of the source tie is not
+                # available for this tree; the behavioural correspondence still ties the model to the code -> boosted budget
+                src_state = "unavailable"
+                ctx.notes.append("source tie unavailable for: " + "; ".join(f"{q}: {r}" for q, r in src_info["unavailable"].items()))
+            elif s_ok:
+                src_state = "holds"
+            else:
+                # the source translates but an obligation about the translated definitions no longer checks: a broken proof
+                src_state = "broken"
+                bad = sorted(set(__import__("re").findall(r"error: [^\n]*?(RpylibModel/ProofsGen/[^:]+:\d+)", s_out)))
+                ctx.fail("proof", f"{prop.lower()}.source_tie", {"functions": src_info["functions"], "file": src_info["file"]},
+                         {"name": src_info["lean_target"] + " (" + ", ".join(bad[:6]) + ")", "lake_output": s_out[-3000:]})
+            src_align = None
+            if src_info.get("align_target") and src_state == "holds":
+                a_ok, a_out, bt4 = cm.lean_build([src_info["align_target"]])
+                bt += bt4
+                src_align = "holds" if a_ok else "lost"
+                if not a_ok:
+                    ctx.notes.append("alignment lost: the translated source no longer equals the hand-written model syntactically-"
+                                     "provably (" + src_info["align_target"] + "); the correspondence decides")
+            src_info["alignment"] = src_align
+            if (src_state != "holds" or src_align == "lost") and not ctx.thorough and os.environ.get("VERIF_NO_BOOST") != "1":
+                ctx.boost = True
 
         # ---- 2. audit -----------------------------------------------------------------------------------------------
         wanted, thms, raw, rc = cm.lean_audit(prop)
@@ -88,13 +120,26 @@ def main(argv):
             w2, t2, raw2, rc2 = cm.lean_audit(prop, suffix="Gen")
             wanted, raw, rc = wanted + w2, raw + raw2, rc or rc2
             thms.update(t2)
+        src_wanted = []
+        if src_info and (cm.LEAN_DIR / "Audit" / f"{prop}Src.lean").exists():
+            if src_state == "holds":
+                w3, t3, raw3, rc3 = cm.lean_audit(prop, suffix="Src")
+                wanted, raw, rc = wanted + w3, raw + raw3, rc or rc3
+                thms.update(t3)
+                if src_info.get("alignment") == "holds" and (cm.LEAN_DIR / "Audit" / f"{prop}SrcModel.lean").exists():
+                    w4, t4, raw4, rc4 = cm.lean_audit(prop, suffix="SrcModel")
+                    wanted, raw, rc = wanted + w4, raw + raw4, rc or rc4
+                    thms.update(t4)
+            else:
+                src_wanted = __import__("re").findall(r"^#print axioms\s+(\S+)", (cm.LEAN_DIR / "Audit" / f"{prop}Src.lean").read_text(),
+                                                       flags=__import__("re").M)
         bad_axioms = {t: a for t, a in thms.items() if not set(a) <= cm.STD_AXIOMS}
         missing = [t for t in wanted if t not in thms]
         hits = cm.forbidden_hits()
         if missing or bad_axioms or hits or rc != 0:
             print(raw[-3000:])
             raise Infra(f"audit failed: missing={missing} bad_axioms={bad_axioms} forbidden={hits[:5]} rc={rc}")
-        obligations = len(wanted) + (0 if gen_ok else len(gen_targets))
+        obligations = len(wanted) + (0 if gen_ok else len(gen_targets)) + len(src_wanted)
         discharged = len([t for t in wanted if t in thms])
         if tier == "thorough" and getattr(mod, "LEANCHECKER", True):
             r = cm._run(["lake", "env", "leanchecker", *targets], cm.LEAN_DIR, 3000)
@@ -106,7 +151,10 @@ def main(argv):
         # ---- 3. corpus, then generated inputs ----------------------------------------------------------------------
         if replay:
             rec = json.loads(open(replay).read())
-            mod.replay(ctx, rec)
+            if ".src.search" in rec.get("probe", "") or rec.get("probe", "").endswith(".source_tie"):
+                srctie.search(prop, ctx)      # the directed search of the source tie is deterministic: re-run it
+            else:
+                mod.replay(ctx, rec)
         else:
             cdir = cm.CORPUS / prop
             if cdir.exists() and hasattr(mod, "replay"):
@@ -114,6 +162,9 @@ def main(argv):
                     mod.replay(ctx, json.loads(f.read_text()))
                     ctx.branches["corpus"] += 1
             mod.run(ctx)
+            if src_state == "broken":
+                # an obligation about the translated source no longer checks: directed search on the implementation
+                srctie.search(prop, ctx)
             # broken tie but no failing input yet: extended search on the implementation
             if any(f["kind"] != "oracle" for f in ctx.failures) and not any(
                     f["kind"] == "oracle" and not any(cm.match_known(k, f) for k in ctx.known) for f in ctx.failures):
@@ -180,6 +231,11 @@ def main(argv):
             "excluded_small_decision_margin": ctx.excluded_small_margin,
             "known_findings_hit": ctx.known_hits,
             "generated_constants": gen_info,
+            "source_derived": None if not src_info else {
+                "state": src_state, "translator": "harness/py2lean.py (PyLite subset) driven by harness/srctie.py",
+                "generated_file": src_info["file"], "obligations_target": src_info["lean_target"],
+                "alignment_with_hand_model": src_info.get("alignment"), "alignment_target": src_info.get("align_target"),
+                "functions": src_info["functions"]},
             "source_tie": {"models_validated_against_repo_commit": ctx.validated_commit,
                            "files_differing_from_that_record": ctx.changed_files,
                            "budget": f"quick x{cm.BOOST} (tree differs from the validated record)" if ctx.boost else tier},
